@@ -4,6 +4,7 @@
    bodies of the model (Nbrs.nb_link / fl_link), about which all C04/C09 theorems are stated,
    are the ones the source has now. *)
 From EG Require Import Base State Nbrs NbrsDecide GenNbrs.
+From EG Require Export NbrsLink.
 
 Theorem gen_nb_decide_ok : forall d u k_und k_dir e1 e2 fk,
   gen_nb_decide d u k_und k_dir e1 e2 fk = nb_decide d u k_und k_dir e1 e2 fk.
@@ -13,31 +14,16 @@ Theorem gen_fl_decide_ok : forall ds u k_und k_dir e1 joins fk,
   gen_fl_decide ds u k_und k_dir e1 joins fk = fl_decide ds u k_und k_dir e1 joins fk.
 Proof. intros [] [] [] [] [] [] []; reflexivity. Qed.
 
-Theorem nb_link_is_decide : forall filt s v d u f l,
-  nb_link filt s v d u f l = nb_link_via filt nb_decide s v d u f l.
-Proof.
-  intros. unfold nb_link, nb_link_via. destruct (other s l (Some v)); [reflexivity|].
-  unfold nb_decide. destruct d, u, (is_undirected (kd s l)), (is_directed (kd s l)), (is_end1 s l v), (is_end2 s l v),
-    (fok filt f l o); reflexivity.
-Qed.
-Theorem fl_link_is_decide : forall ffl s a b ds u f l,
-  fl_link ffl s a b ds u f l = fl_link_via ffl fl_decide s a b ds u f l.
-Proof.
-  intros. unfold fl_link, fl_link_via. destruct (other s l (Some a)); [reflexivity|].
-  unfold fl_decide. destruct ds, u, (oeqb o (Some b)), (is_undirected (kd s l)), (is_directed (kd s l)), (is_end1 s l a),
-    (ffok ffl f l); reflexivity.
-Qed.
-
 (* the loop bodies as regenerated from the source *)
 Corollary nb_link_is_generated : forall filt s v d u f l,
   nb_link filt s v d u f l = nb_link_via filt gen_nb_decide s v d u f l.
 Proof.
   intros. rewrite nb_link_is_decide. unfold nb_link_via. destruct (other s l (Some v)); [reflexivity|].
-  now rewrite gen_nb_decide_ok.
+  first [ now rewrite gen_nb_decide_ok | reflexivity ].   (* reflexivity: the translator fell back to the hand cascade *)
 Qed.
 Corollary fl_link_is_generated : forall ffl s a b ds u f l,
   fl_link ffl s a b ds u f l = fl_link_via ffl gen_fl_decide s a b ds u f l.
 Proof.
   intros. rewrite fl_link_is_decide. unfold fl_link_via. destruct (other s l (Some a)); [reflexivity|].
-  now rewrite gen_fl_decide_ok.
+  first [ now rewrite gen_fl_decide_ok | reflexivity ].
 Qed.
